@@ -114,6 +114,14 @@ func TestC14(t *testing.T) {
 	ci := 0
 	cands := c14Candidates(a, w.Ctx, w)
 
+	if len(focus) > 0 && only < 0 {
+		tr.p("# focus %s", os.Getenv("VERIF_FOCUS")) // tells the runner that the other handlers were left out on purpose
+	}
+	for _, m := range c12Messages(w, w.Owner) {
+		if len(c14AmountFields(m.Msg)) == 0 {
+			tr.p("# no-amount-field %s", m.Handler)
+		}
+	}
 	nmsgs := len(c12Messages(w, w.Owner))
 	type variant struct {
 		field *c14AmtField
